@@ -10,6 +10,8 @@ Mirrors the Python branch for branch, quirks included:
 * `replaced_box_height` stores `None` in `box.height` when both sizes are `'auto'` and the image has
   no intrinsic height; the next statement of every caller compares it with a number (TypeError).
   The model raises that TypeError at the store (see `rbhCore`).
+* `handle_min_max_width` saves `box.position_x` before the first call and restores it before each re-run
+  (repair 165e254: the wrapped `block_level_width` shifts an over-constrained rtl box; `mmwMax` / `mmwMin`).
 * the `1e-6` of `min_max_auto_replaced` and the 300 / 150 defaults come from `Gen/ReplacedConsts`
   (regenerated from the source).
 No Mathlib, no Std: linked into `driver_c13`.
@@ -309,26 +311,30 @@ def blwCore (b : RBox) (cb : Cb) : RBox :=
   | none => b      -- not reachable: `blwAutoWidth` has set the width
   | some w => blwMargins b cb w
 
-/-- `if box.width > box.max_width:` of `handle_min_max_width` (`ml`, `mr`: the computed margins
-saved before the first call). -/
-def mmwMax (f : RBox → Except Err RBox) (ml mr : Len) (b : RBox) : Except Err RBox := do
+/-- `if box.width > box.max_width:` of `handle_min_max_width` (`ml`, `mr`: the computed margins and
+`px`: the `position_x` saved before the first call; the wrapped function may have shifted an rtl
+box, and the shift must not be applied twice — every box of this model has a `position_x`, so the
+`if position_x is not None` guard is always taken). -/
+def mmwMax (f : RBox → Except Err RBox) (ml mr : Len) (px : Rat) (b : RBox) : Except Err RBox := do
   let w ← num "min_max.width>max_width" b.width
   match b.maxWidth with
-  | some m => if w > m then f { b with width := some m, marginLeft := ml, marginRight := mr } else pure b
+  | some m =>
+    if w > m then f { b with width := some m, marginLeft := ml, marginRight := mr, positionX := px }
+    else pure b
   | none => pure b
 
 /-- `if box.width < box.min_width:` of `handle_min_max_width`. -/
-def mmwMin (f : RBox → Except Err RBox) (ml mr : Len) (b : RBox) : Except Err RBox := do
+def mmwMin (f : RBox → Except Err RBox) (ml mr : Len) (px : Rat) (b : RBox) : Except Err RBox := do
   let w ← num "min_max.width<min_width" b.width
   if w < b.minWidth then
-    f { b with width := some b.minWidth, marginLeft := ml, marginRight := mr }
+    f { b with width := some b.minWidth, marginLeft := ml, marginRight := mr, positionX := px }
   else pure b
 
 /-- `handle_min_max_width(function)` (min_max.py). -/
 def withMinMaxWidth (f : RBox → Except Err RBox) (b : RBox) : Except Err RBox := do
   let b1 ← f b
-  let b2 ← mmwMax f b.marginLeft b.marginRight b1
-  mmwMin f b.marginLeft b.marginRight b2
+  let b2 ← mmwMax f b.marginLeft b.marginRight b.positionX b1
+  mmwMin f b.marginLeft b.marginRight b.positionX b2
 
 def mmhMax (f : RBox → Except Err RBox) (mt mb : Len) (b : RBox) : Except Err RBox := do
   let h ← num "min_max.height>max_height" b.height
